@@ -433,6 +433,38 @@ func (w *world) iface(code string) *database.Interface {
 	return i
 }
 
+func isNum(s string) bool {
+	if s == "" {
+		return false
+	}
+	for _, c := range s {
+		if c < '0' || c > '9' {
+			return false
+		}
+	}
+	return true
+}
+
+// ifaceFor validates an interface code for an op: "+w" (delayed writes) only for put/flush on LI, "+c" only for get/put.
+func (w *world) ifaceFor(op, code string) bool {
+	base, ext, has := strings.Cut(code, "+")
+	if has {
+		switch ext {
+		case "w":
+			if base != "LI" || (op != "put" && op != "flush") || (w.kind != "hashmap" && w.kind != "bbolt") {
+				return false
+			}
+		case "c":
+			if op != "get" && op != "put" {
+				return false
+			}
+		default:
+			return false
+		}
+	}
+	return validIface(code)
+}
+
 func validIface(code string) bool {
 	base, ext, has := strings.Cut(code, "+")
 	if has && ext != "c" && ext != "w" {
@@ -578,7 +610,13 @@ func drainOne(ch chan record.Record) (recs []record.Record, closed bool) {
 
 func (w *world) drain() string {
 	var b strings.Builder
-	for i, s := range w.subs {
+	subs := append([]*subState{}, w.subs...)
+	sort.SliceStable(subs, func(i, j int) bool {
+		a, _ := strconv.Atoi(subs[i].sid)
+		c, _ := strconv.Atoi(subs[j].sid)
+		return a < c
+	})
+	for i, s := range subs {
 		if i > 0 {
 			b.WriteByte(' ')
 		}
@@ -610,7 +648,10 @@ func (w *world) Do(line string) string {
 	if f[0] == "conc" {
 		return w.doConc(line)
 	}
-	if f[0] == "ev" || f[0] == "obs" {
+	w.callMu.Lock()
+	w.calls = nil // calls left over from an operation that panicked
+	w.callMu.Unlock()
+	if f[0] == "ev" || f[0] == "obs" || f[0] == "cs" || f[0] == "cw" {
 		return "ok" // recorded trace lines: the real run already happened (see conc.go); the model is the acceptor
 	}
 	if f[0] == "db" {
@@ -649,7 +690,7 @@ func (w *world) Do(line string) string {
 		w.queries[f[1]] = q
 		return "ok"
 	case "sub": // sub <sid> <iface> <qid>
-		if len(f) != 4 || !validIface(f[2]) || w.findSub(f[1]) != nil {
+		if len(f) != 4 || !w.ifaceFor("sub", f[2]) || !isNum(f[1]) || w.findSub(f[1]) != nil {
 			return "bad-op"
 		}
 		q, ok := w.queries[f[3]]
@@ -663,7 +704,7 @@ func (w *world) Do(line string) string {
 		w.subs = append(w.subs, &subState{sid: f[1], sub: s})
 		return "ok"
 	case "cancel":
-		if len(f) != 2 {
+		if len(f) != 2 || !isNum(f[1]) {
 			return "bad-op"
 		}
 		s := w.findSub(f[1])
@@ -681,7 +722,7 @@ func (w *world) Do(line string) string {
 			return "bad-op"
 		}
 		q, ok := w.queries[f[2]]
-		if !ok || w.hx[f[1]] != nil || !okBeh(f[3], false) || !okBeh(f[4], true) || !okBeh(f[5], true) {
+		if !ok || !isNum(f[1]) || w.hx[f[1]] != nil || !okBeh(f[3], false) || !okBeh(f[4], true) || !okBeh(f[5], true) {
 			return "bad-op"
 		}
 		h := &hxHook{w: w, id: f[1], pg: f[3], og: f[4], pp: f[5]}
@@ -701,7 +742,7 @@ func (w *world) Do(line string) string {
 		if f[0] == "push" {
 			f = append([]string{"push", "LI"}, f[1:]...)
 		}
-		if len(f) != 6 || !validIface(f[1]) || !okKey(f[2]) || !okStr(f[4]) || !okFlags(f[5]) {
+		if len(f) != 6 || !w.ifaceFor(f[0], f[1]) || !okKey(f[2]) || !okStr(f[4]) || !okFlags(f[5]) {
 			return "bad-op"
 		}
 		n, err := strconv.ParseInt(f[3], 10, 64)
@@ -715,13 +756,15 @@ func (w *world) Do(line string) string {
 		case "putnew":
 			err = w.iface(f[1]).PutNew(r)
 		case "push":
-			r.Lock()
-			w.push(r)
-			r.Unlock()
+			func() {
+				r.Lock()
+				defer r.Unlock()
+				w.push(r)
+			}()
 		}
 		return errClass(err) + w.takeCalls()
 	case "del", "mksec", "mkcj":
-		if len(f) != 3 || !validIface(f[1]) || !okKey(f[2]) {
+		if len(f) != 3 || !w.ifaceFor(f[0], f[1]) || !okKey(f[2]) {
 			return "bad-op"
 		}
 		var err error
@@ -736,7 +779,7 @@ func (w *world) Do(line string) string {
 		}
 		return errClass(err) + w.takeCalls()
 	case "exp": // exp <iface> <key> <p|f>
-		if len(f) != 4 || !validIface(f[1]) || !okKey(f[2]) || (f[3] != "p" && f[3] != "f") {
+		if len(f) != 4 || !w.ifaceFor(f[0], f[1]) || !okKey(f[2]) || (f[3] != "p" && f[3] != "f") {
 			return "bad-op"
 		}
 		t := int64(expPast)
@@ -745,7 +788,7 @@ func (w *world) Do(line string) string {
 		}
 		return errClass(w.iface(f[1]).SetAbsoluteExpiry(w.dbName+":"+f[2], t)) + w.takeCalls()
 	case "ins": // ins <iface> <key> <n>
-		if len(f) != 4 || !validIface(f[1]) || !okKey(f[2]) {
+		if len(f) != 4 || !w.ifaceFor(f[0], f[1]) || !okKey(f[2]) {
 			return "bad-op"
 		}
 		n, err := strconv.ParseInt(f[3], 10, 64)
@@ -754,7 +797,7 @@ func (w *world) Do(line string) string {
 		}
 		return errClass(w.iface(f[1]).InsertValue(w.dbName+":"+f[2], "N", n)) + w.takeCalls()
 	case "get":
-		if len(f) != 3 || !validIface(f[1]) || !okKey(f[2]) {
+		if len(f) != 3 || !w.ifaceFor(f[0], f[1]) || !okKey(f[2]) {
 			return "bad-op"
 		}
 		r, err := w.iface(f[1]).Get(w.dbName + ":" + f[2])
@@ -785,7 +828,7 @@ func (w *world) Do(line string) string {
 		}
 		return fmt.Sprintf("subs=%d hooks=%d", s, h)
 	case "flush": // flush <iface>: run the delayed cache writer of a "+w" interface until it has flushed
-		if len(f) != 2 || !validIface(f[1]) || !strings.HasSuffix(f[1], "+w") {
+		if len(f) != 2 || !w.ifaceFor("flush", f[1]) || !strings.HasSuffix(f[1], "+w") {
 			return "bad-op"
 		}
 		ctx, cancel := context.WithCancel(context.Background())
